@@ -18,6 +18,7 @@ from pycoin.symbols.btc import network as BTC
 from pycoin.symbols.ltc import network as LTC
 
 PROP = "C14"
+EXTRA_PROPS = ["C14compose"]   # composition theorems (see DESIGN.md section 0)
 DRIVER = "C14"
 INTERACTIVE = True
 NETS = {"btc": BTC, "ltc": LTC}
